@@ -471,7 +471,13 @@ func (s *Server) enforcementHandler(w http.ResponseWriter, r *http.Request, next
 		if err != nil {
 			hostname = r.Host // OK; probably lacked port
 		}
-		if !strings.EqualFold(r.TLS.ServerName, hostname) {
+		// a server name is ASCII (RFC 6066; IDNs travel as A-labels). Refuse
+		// anything else: strings.EqualFold uses Unicode simple folding, which
+		// equates e.g. "\u017fecret.test" (U+017F LATIN SMALL LETTER LONG S)
+		// with "secret.test", while the TLS connection policy matchers compare
+		// lower-cased strings, so that SNI does NOT select the connection
+		// policy (client auth!) of "secret.test"
+		if !isASCII(r.TLS.ServerName) || !strings.EqualFold(r.TLS.ServerName, hostname) {
 			err := fmt.Errorf("strict host matching: TLS ServerName (%s) and HTTP Host (%s) values differ",
 				r.TLS.ServerName, hostname)
 			r.Close = true
